@@ -274,7 +274,7 @@ def terminals_text(values, status):
 # Python-side anchors
 
 # skeleton digest of the shipped Attribute.__str__ (prints every value, hence lark's None placeholders)
-ATTR_STR_SHIPPED_SKELETON = '646c0061491cacc6'
+ATTR_STR_SHIPPED_SKELETON = '7e318de78dcad545'
 
 
 class SyntaxModule(GenModule):
